@@ -104,6 +104,12 @@ def rule_G3(ctx):
                  '__iand__', '__ior__', '__ixor__'):
         for f in m.winner('BitArray', name):
             ops.append((name, f))
+    # concatenation puts the left operand's bits first in both modes (s.bin of a + b is a.bin + b.bin): whichever class
+    # implements it, it must not go through the mode-switched append/prepend
+    for name in ('__add__', '__radd__'):
+        for c_ in ('Bits', 'BitArray', 'ConstBitStream', 'BitStream'):
+            for f in m.winner(c_, name):
+                ops.append((name, f))
     seen_ops = set()
     for opname, f in ops:
         if f.key in seen_ops:
